@@ -684,11 +684,19 @@ def atomic_write_file(filename: Filename, data):
     temp_filename = Filename("%s.tmp.%s" % (filename, os.getpid(),))
     write_file(temp_filename, data)
     try:
-        st = os.stat(str(filename)) # OSError if file didn't exit before
+        st = os.stat(str(filename))
+    except FileNotFoundError:
+        # The file didn't exist before: there is no mode to carry over.
+        st = None
+    if st is not None:
+        # Any other failure to read or copy the permission bits must not be
+        # ignored: renaming now would silently replace the file by one with
+        # default permissions (e.g. make a private file world-readable).
         os.chmod(str(temp_filename), st.st_mode)
-        os.chown(str(temp_filename), -1, st.st_gid) # OSError if not member of group
-    except OSError:
-        pass
+        try:
+            os.chown(str(temp_filename), -1, st.st_gid)
+        except OSError:
+            pass # not a member of the group
     os.rename(str(temp_filename), str(filename))
 
 
